@@ -404,8 +404,8 @@ Section Reader.
       rewrite !app_length in Hf. cbn [length] in Hf.
       pose proof (nw_plain_nonempty k Ok_k) as Hk_ne.
       assert (0 < length (nw_plain k))%nat by (destruct (nw_plain k); [contradiction|cbn; lia]).
-      rewrite <- !app_assoc. cbn [rd_forest].
-      rewrite (Hk f _ eq_refl ltac:(lia)). cbn [app N.eqb Pos.eqb].
+      rewrite <- !app_assoc. cbn [rd_forest app].
+      rewrite (Hk f (44 :: _) eq_refl ltac:(lia)). cbn [N.eqb Pos.eqb].
       rewrite (IH ltac:(discriminate) Hks Ok_ks f rest ltac:(lia)). reflexivity.
   Qed.
 
@@ -468,4 +468,499 @@ Lemma sort_tree_erase t : sort_tree (erase t) = erase t.
 Proof.
   induction t as [g n a ks IH] using tree_ind'. cbn [erase sort_tree sort_attrs fold_right]. f_equal.
   induction IH as [|k ks Hk Hks IHk]; [reflexivity|]. cbn [map]. rewrite Hk, IHk. reflexivity.
+Qed.
+
+(* ------------------------------------------------------------------------------------------ *)
+(* print_tree / str_to_tree                                                                    *)
+
+(* pre-order (depth, name) list *)
+Fixpoint pn (d : nat) (t : tree) : list (nat * str) :=
+  match t with T _ n _ ks => (d, n) :: flat_map (pn (S d)) ks end.
+Definition pnf (d : nat) (ks : list tree) : list (nat * str) := flat_map (pn d) ks.
+
+Definition proj_dn (x : nat * bool * str) : nat * str := let '(d, _, n) := x in (d, n).
+
+Lemma pre_info_pn t : forall d hr, map proj_dn (pre_info d hr t) = pn d t.
+Proof.
+  induction t as [g n a ks IH] using tree_ind'. intros d hr.
+  cbn [pre_info pn map proj_dn]. f_equal.
+  induction IH as [|k ks Hk Hks IHk]; [reflexivity|].
+  cbn [flat_map]. rewrite map_app, Hk, IHk. reflexivity.
+Qed.
+
+(* --- the decoder: a tree is determined by its pre-order (depth, name) list --- *)
+
+Definition deeper (d : nat) (l : list (nat * str)) : bool :=
+  forallb (fun x : nat * str => Nat.ltb d (fst x)) l.
+Definition head_le (d : nat) (l : list (nat * str)) : bool :=
+  match l with [] => true | x :: _ => negb (Nat.ltb d (fst x)) end.
+
+Lemma span_deeper_app d x : forall rest,
+  deeper d x = true -> head_le d rest = true -> span_deeper d (x ++ rest) = (x, rest).
+Proof.
+  induction x as [|[e a] x IH]; intros rest Hd Hh.
+  - cbn [app]. destruct rest as [|[e a] r]; [reflexivity|].
+    cbn [span_deeper]. cbn [head_le fst] in Hh. apply negb_true_iff in Hh. rewrite Hh. reflexivity.
+  - cbn [deeper forallb fst] in Hd. apply andb_true_iff in Hd as [H1 H2].
+    cbn [app span_deeper]. rewrite H1. rewrite (IH rest H2 Hh). reflexivity.
+Qed.
+
+Lemma pn_deeper t : forall e d, (d < e)%nat -> deeper d (pn e t) = true.
+Proof.
+  induction t as [g n a ks IH] using tree_ind'. intros e d Hlt.
+  cbn [pn deeper forallb fst]. apply andb_true_iff. split; [apply Nat.ltb_lt; exact Hlt|].
+  fold (deeper d (flat_map (pn (S e)) ks)).
+  induction IH as [|k ks Hk Hks IHk]; [reflexivity|].
+  cbn [flat_map]. unfold deeper. rewrite forallb_app. apply andb_true_iff. split.
+  - apply Hk. lia.
+  - apply IHk.
+Qed.
+
+Lemma pnf_deeper ks e d : (d < e)%nat -> deeper d (pnf e ks) = true.
+Proof.
+  intros Hlt. induction ks as [|k ks IH]; [reflexivity|].
+  unfold pnf. cbn [flat_map]. unfold deeper. rewrite forallb_app. apply andb_true_iff. split.
+  - apply pn_deeper. exact Hlt.
+  - apply IH.
+Qed.
+
+Lemma pnf_head_le ks d : head_le d (pnf d ks) = true.
+Proof.
+  destruct ks as [|[g n a kk] ks]; [reflexivity|].
+  unfold pnf. cbn [flat_map pn app head_le fst]. rewrite Nat.ltb_irrefl. reflexivity.
+Qed.
+
+(* C06 "tree_of_preorder_depths": forest_of_pre inverts the pre-order listing *)
+Lemma forest_of_pre_pnf : forall fuel ks d e,
+  (length (pnf d ks) <= fuel)%nat -> forest_of_pre mk_plain fuel e (pnf d ks) = map erase ks.
+Proof.
+  induction fuel as [|f IH]; intros ks d e Hlen.
+  { destruct ks as [|[g n a kk] ks]; [reflexivity|]. unfold pnf in Hlen. cbn in Hlen. lia. }
+  destruct ks as [|[g n a kk] ks]; [reflexivity|].
+  unfold pnf in Hlen |- *. cbn [flat_map pn app] in Hlen |- *. cbn [length] in Hlen. rewrite app_length in Hlen.
+  cbn [forest_of_pre].
+  fold (pnf (S d) kk) in Hlen |- *. fold (pnf d ks) in Hlen |- *.
+  rewrite (span_deeper_app d (pnf (S d) kk) (pnf d ks) (pnf_deeper kk (S d) d ltac:(lia)) (pnf_head_le ks d)).
+  rewrite (IH kk (S d) (S d) ltac:(lia)). rewrite (IH ks d e ltac:(lia)).
+  reflexivity.
+Qed.
+
+Theorem forest_of_pre_pn t fuel :
+  (length (pn 0 t) <= fuel)%nat -> forest_of_pre mk_plain fuel 0 (pn 0 t) = [erase t].
+Proof.
+  intros H. pose proof (forest_of_pre_pnf fuel [t] 0%nat 0%nat) as P.
+  unfold pnf in P. cbn [flat_map map] in P. rewrite app_nil_r in P. apply P. exact H.
+Qed.
+
+(* --- pre-order depth sequences never jump by more than one --- *)
+
+Fixpoint chain (c : nat) (l : list (nat * str)) : Prop :=
+  match l with
+  | [] => True
+  | (d, _) :: r => (1 <= d /\ d <= c)%nat /\ chain (S d) r
+  end.
+
+Lemma chain_tree t : forall d c rest,
+  (1 <= d /\ d <= c)%nat -> (forall c', (S d <= c')%nat -> chain c' rest) -> chain c (pn d t ++ rest).
+Proof.
+  induction t as [g n a ks IH] using tree_ind'. intros d c rest Hd Hrest.
+  cbn [pn app chain]. split; [exact Hd|].
+  assert (Hf : forall c', (S d <= c')%nat -> chain c' (flat_map (pn (S d)) ks ++ rest)).
+  { induction IH as [|k ks Hk Hks IHk]; intros c' Hc'.
+    - cbn [flat_map app]. apply Hrest. exact Hc'.
+    - cbn [flat_map]. rewrite <- app_assoc. apply Hk; [lia|].
+      intros c'' Hc''. apply IHk. lia. }
+  apply Hf. lia.
+Qed.
+
+Lemma chain_pnf ks : chain 1 (pnf 1 ks).
+Proof.
+  assert (H : forall c', (1 <= c')%nat -> chain c' (pnf 1 ks ++ [])).
+  { induction ks as [|k ks IH]; intros c' Hc'.
+    - exact I.
+    - unfold pnf. cbn [flat_map]. rewrite <- app_assoc. apply chain_tree; [lia|].
+      intros c'' Hc''. apply IH. lia. }
+  specialize (H 1%nat ltac:(lia)). rewrite app_nil_r in H. exact H.
+Qed.
+
+(* --- characters --- *)
+
+Lemma glyph_not_10 c : glyph c = true -> N.eqb c 10 = false.
+Proof.
+  unfold glyph. intros H. apply N.eqb_neq. intros ->. cbn in H. discriminate.
+Qed.
+Lemma printable_not_10 c : printable c = true -> N.eqb c 10 = false.
+Proof.
+  unfold printable. intros H. apply N.eqb_neq. intros ->. cbn in H. discriminate.
+Qed.
+Lemma printable_ascii c : printable c = true -> (c <? 128) = true.
+Proof.
+  unfold printable. intros H. apply andb_true_iff in H as [_ H]. apply N.leb_le in H.
+  apply N.ltb_lt. lia.
+Qed.
+Lemma head_not_space c : printable c = true -> N.eqb c 32 = false -> is_space c = false.
+Proof.
+  unfold printable, is_space. intros H H32. apply andb_true_iff in H as [H1 H2].
+  apply N.leb_le in H1. apply N.leb_le in H2. apply N.eqb_neq in H32.
+  apply orb_false_iff. split; apply andb_false_iff.
+  - right. apply N.leb_gt. lia.
+  - right. apply N.leb_gt. lia.
+Qed.
+Lemma head_not_glyph c g : printable c = true -> N.eqb c 32 = false -> glyph g = true -> N.eqb c g = false.
+Proof.
+  unfold printable, glyph. intros H H32 Hg. apply andb_true_iff in H as [H1 H2].
+  apply N.leb_le in H2. apply N.eqb_neq in H32. apply N.eqb_neq. intros ->.
+  apply orb_true_iff in Hg as [Hg|Hg].
+  - apply N.leb_le in Hg. lia.
+  - apply N.eqb_eq in Hg. contradiction.
+Qed.
+
+Definition pname (n : str) : Prop :=
+  forallb printable n = true /\ exists c r, n = c :: r /\ N.eqb c 32 = false.
+
+Lemma print_name_ok_pname n : print_name_ok n = true -> pname n.
+Proof.
+  unfold print_name_ok. intros H. apply andb_true_iff in H as [H1 H2]. split; [exact H1|].
+  destruct n as [|c r]; [discriminate|]. exists c, r. split; [reflexivity|].
+  apply negb_true_iff. exact H2.
+Qed.
+
+Lemma ascii_only_name n : forallb printable n = true -> ascii_only n = n.
+Proof.
+  unfold ascii_only. induction n as [|c n IH]; intros H; [reflexivity|].
+  cbn [forallb] in H. apply andb_true_iff in H as [Hc Hn].
+  cbn [filter]. rewrite (printable_ascii c Hc). rewrite (IH Hn). reflexivity.
+Qed.
+
+Lemma strip_prefix_name P n :
+  forallb glyph P = true -> pname n -> lstrip_ws (ascii_only (P ++ n)) = n.
+Proof.
+  intros HP [Hpr (c & r & -> & Hc)].
+  unfold ascii_only. rewrite filter_app. fold (ascii_only (c :: r)). rewrite (ascii_only_name _ Hpr).
+  induction P as [|g P IH].
+  - cbn [filter app lstrip_ws]. cbn [forallb] in Hpr. apply andb_true_iff in Hpr as [Hpc _].
+    rewrite (head_not_space c Hpc Hc). reflexivity.
+  - cbn [forallb] in HP. apply andb_true_iff in HP as [Hg HP].
+    cbn [filter]. destruct (g <? 128) eqn:E.
+    + unfold glyph in Hg. apply orb_true_iff in Hg as [Hg|Hg].
+      * apply N.leb_le in Hg. apply N.ltb_lt in E. lia.
+      * apply N.eqb_eq in Hg. subst g. cbn [app lstrip_ws is_space N.leb N.compare Pos.compare Pos.compare_cont andb orb].
+        apply IH. exact HP.
+    + apply IH. exact HP.
+Qed.
+
+Lemma startswith_refl s : startswith s s = true.
+Proof. pose proof (startswith_app [] s) as H. rewrite app_nil_r in H. exact H. Qed.
+
+Lemma find_sub_prefix P n :
+  forallb glyph P = true -> pname n -> find_sub (P ++ n) n = Some (length P).
+Proof.
+  intros HP [Hpr (c & r & -> & Hc)].
+  induction P as [|g P IH].
+  - cbn [app find_sub]. rewrite startswith_refl. reflexivity.
+  - cbn [forallb] in HP. apply andb_true_iff in HP as [Hg HP].
+    cbn [forallb] in Hpr. pose proof Hpr as Hpr'. apply andb_true_iff in Hpr' as [Hpc _].
+    cbn [app find_sub startswith]. rewrite (head_not_glyph c g Hpc Hc Hg). cbn [andb].
+    rewrite (IH HP). reflexivity.
+Qed.
+
+(* --- the loop of str_to_tree on well-indented lines --- *)
+
+Section Lines.
+  Variable L : nat.
+  Hypothesis HL : (0 < L)%nat.
+
+  Definition line_ok (dn : nat * str) (line : str) : Prop :=
+    pname (snd dn) /\ exists P, line = P ++ snd dn /\ length P = (L * fst dn)%nat /\ forallb glyph P = true.
+
+  Lemma st_lines_some : forall dn lines c,
+    chain c dn -> Forall2 line_ok dn lines -> st_lines lines (Some L) c = Ret dn.
+  Proof.
+    induction dn as [|[d n] dn IH]; intros lines c Hch Hf; inversion Hf as [|? line ? lines' Hl Hf']; subst.
+    - reflexivity.
+    - cbn [chain] in Hch. destruct Hch as [[Hd1 Hdc] Hch].
+      destruct Hl as [Hpn (P & -> & HlenP & HgP)]. cbn [fst snd] in *.
+      cbn [st_lines]. rewrite (strip_prefix_name P n HgP Hpn). rewrite (find_sub_prefix P n HgP Hpn).
+      rewrite HlenP.
+      assert (E0 : Nat.eqb L 0 = false) by (apply Nat.eqb_neq; lia). rewrite E0.
+      rewrite (Nat.mul_comm L d), (Nat.mod_mul d L ltac:(lia)). cbn [Nat.eqb negb].
+      rewrite (Nat.div_mul d L ltac:(lia)).
+      assert (E1 : Nat.eqb d 0 = false) by (apply Nat.eqb_neq; lia). rewrite E1.
+      destruct Hpn as [_ (c0 & r0 & En & _)]. rewrite En. cbn [is_nil]. rewrite <- En.
+      rewrite (Nat.min_r c d Hdc). rewrite (IH lines' (S d) Hch Hf'). reflexivity.
+  Qed.
+
+  Lemma st_lines_none dn lines :
+    chain 1 dn -> Forall2 line_ok dn lines -> st_lines lines None 1 = Ret dn.
+  Proof.
+    intros Hch Hf. rewrite <- (st_lines_some dn lines 1%nat Hch Hf).
+    destruct dn as [|[d n] dn]; inversion Hf as [|? line ? lines' Hl Hf']; subst; [reflexivity|].
+    cbn [chain] in Hch. destruct Hch as [[Hd1 Hdc] _]. assert (d = 1%nat) by lia. subst d.
+    destruct Hl as [Hpn (P & -> & HlenP & HgP)]. cbn [fst snd] in *.
+    cbn [st_lines]. rewrite (strip_prefix_name P n HgP Hpn). rewrite (find_sub_prefix P n HgP Hpn).
+    rewrite HlenP, Nat.mul_1_r. reflexivity.
+  Qed.
+End Lines.
+
+(* --- the lines yield_tree produces --- *)
+
+Definition line_of (x : str * str * str) : str := let '(p, f, n) := x in p ++ f ++ n.
+
+Lemma repeat_glyph k : forallb glyph (repeat 32 k) = true.
+Proof. induction k as [|k IH]; [reflexivity|]. cbn [repeat forallb]. rewrite IH. reflexivity. Qed.
+
+Section Yield.
+  Variables stem branch final : str.
+  Variable L : nat.
+  Hypothesis Hs : length stem = L.
+  Hypothesis Hb : length branch = L.
+  Hypothesis Hf : length final = L.
+  Hypothesis Gs : forallb glyph stem = true.
+  Hypothesis Gb : forallb glyph branch = true.
+  Hypothesis Gf : forallb glyph final = true.
+
+  Let gap : str := repeat 32 L.
+
+  Lemma gap_glyph : forallb glyph gap = true.
+  Proof. apply repeat_glyph. Qed.
+  Lemma gap_len : length gap = L.
+  Proof. apply repeat_length. Qed.
+
+  Lemma pre_s_ok (unc : list nat) (ks : list nat) :
+    let s := concat (map (fun k => if memb k unc then stem else gap) ks) in
+    length s = (L * length ks)%nat /\ forallb glyph s = true.
+  Proof.
+    induction ks as [|k ks [IH1 IH2]]; cbn [map concat length].
+    - split; [lia|reflexivity].
+    - rewrite app_length, forallb_app, IH1, IH2.
+      destruct (memb k unc).
+      + rewrite Hs, Gs. split; [lia|reflexivity].
+      + rewrite gap_len, gap_glyph. split; [lia|reflexivity].
+  Qed.
+
+  Lemma yield_lines : forall l unc,
+    Forall (fun x : nat * bool * str => pname (snd x)) l ->
+    Forall2 (line_ok L) (map proj_dn l) (map line_of (yield_go (stem, branch, final) gap unc l)).
+  Proof.
+    induction l as [|[[d hr] n] l IH]; intros unc Hn; [constructor|].
+    pose proof (Forall_inv Hn) as Hn1. pose proof (Forall_inv_tail Hn) as Hn2. cbn [snd] in Hn1.
+    destruct d as [|d'].
+    - cbn [yield_go map proj_dn line_of app]. constructor; [|apply IH; exact Hn2].
+      split; [exact Hn1|]. exists []. cbn [fst snd length].
+      split; [reflexivity|]. split; [lia|reflexivity].
+    - cbn [yield_go map proj_dn line_of]. constructor; [|apply IH; exact Hn2].
+      split; [exact Hn1|]. cbn [fst snd].
+      set (unc' := if hr then set_add (S d') unc else set_remove (S d') unc).
+      destruct (pre_s_ok unc' (seq 1 d')) as [P1 P2]. rewrite seq_length in P1.
+      exists (concat (map (fun k => if memb k unc' then stem else gap) (seq 1 d')) ++ (if hr then branch else final)).
+      split; [rewrite <- app_assoc; reflexivity|]. split.
+      + rewrite app_length, P1. destruct hr; [rewrite Hb|rewrite Hf]; lia.
+      + rewrite forallb_app, P2. destruct hr; [rewrite Gb|rewrite Gf]; reflexivity.
+  Qed.
+End Yield.
+
+(* --- print(...) lines, strip and split --- *)
+
+Fixpoint joinl (ls : list str) : str :=
+  match ls with
+  | [] => []
+  | [l] => l
+  | l :: r => l ++ 10 :: joinl r
+  end.
+
+Definition no10 (l : str) : bool := forallb (fun c => negb (N.eqb c 10)) l.
+
+Lemma concat_lines ls : ls <> [] -> concat (map (fun l => l ++ [10]) ls) = joinl ls ++ [10].
+Proof.
+  induction ls as [|l ls IH]; intros H; [contradiction|].
+  destruct ls as [|l2 ls].
+  - cbn [map concat joinl]. rewrite app_nil_r. reflexivity.
+  - cbn [map concat] in *. change (joinl (l :: l2 :: ls)) with (l ++ 10 :: joinl (l2 :: ls)).
+    rewrite (IH ltac:(discriminate)). rewrite <- !app_assoc. reflexivity.
+Qed.
+
+Lemma split_line l rest : no10 l = true -> split_on 10 (l ++ 10 :: rest) = l :: split_on 10 rest.
+Proof.
+  unfold no10. induction l as [|c l IH]; intros H.
+  - reflexivity.
+  - cbn [forallb] in H. apply andb_true_iff in H as [Hc Hl]. apply negb_true_iff in Hc.
+    cbn [app split_on]. rewrite Hc. rewrite (IH Hl). reflexivity.
+Qed.
+Lemma split_last l : no10 l = true -> split_on 10 l = [l].
+Proof.
+  unfold no10. induction l as [|c l IH]; intros H; [reflexivity|].
+  cbn [forallb] in H. apply andb_true_iff in H as [Hc Hl]. apply negb_true_iff in Hc.
+  cbn [split_on]. rewrite Hc. rewrite (IH Hl). reflexivity.
+Qed.
+Lemma split_joinl ls : ls <> [] -> forallb no10 ls = true -> split_on 10 (joinl ls) = ls.
+Proof.
+  induction ls as [|l ls IH]; intros Hne H; [contradiction|].
+  cbn [forallb] in H. apply andb_true_iff in H as [Hl Hls].
+  destruct ls as [|l2 ls].
+  - cbn [joinl]. apply split_last. exact Hl.
+  - change (joinl (l :: l2 :: ls)) with (l ++ 10 :: joinl (l2 :: ls)).
+    rewrite (split_line l _ Hl). rewrite (IH ltac:(discriminate) Hls). reflexivity.
+Qed.
+
+Lemma lstrip_head c r chars : memN c chars = false -> lstrip (c :: r) chars = c :: r.
+Proof. intros H. cbn [lstrip]. rewrite H. reflexivity. Qed.
+
+Lemma rstrip_keep x c chars : memN c chars = false -> rstrip (x ++ [c]) chars = x ++ [c].
+Proof.
+  intros H. unfold rstrip. rewrite rev_unit. rewrite (lstrip_head c (rev x) chars H).
+  cbn [rev]. rewrite rev_involutive. reflexivity.
+Qed.
+Lemma rstrip_drop x c chars : memN c chars = true -> rstrip (x ++ [c]) chars = rstrip x chars.
+Proof.
+  intros H. unfold rstrip. rewrite rev_unit. cbn [lstrip]. rewrite H. reflexivity.
+Qed.
+
+(* last character of a non-empty list *)
+Lemma last_char (l : str) : l <> [] -> exists x c, l = x ++ [c].
+Proof.
+  intros H. destruct (exists_last H) as (x & c & E). exists x, c. exact E.
+Qed.
+
+Lemma joinl_last ls : ls <> [] -> exists pre, joinl ls = pre ++ last ls [].
+Proof.
+  induction ls as [|l ls IH]; intros H; [contradiction|].
+  destruct ls as [|l2 ls].
+  - exists []. reflexivity.
+  - destruct (IH ltac:(discriminate)) as [pre E].
+    exists (l ++ 10 :: pre). change (joinl (l :: l2 :: ls)) with (l ++ 10 :: joinl (l2 :: ls)).
+    rewrite E. change (last (l :: l2 :: ls) []) with (last (l2 :: ls) []).
+    rewrite <- app_assoc. reflexivity.
+Qed.
+
+Lemma no10_app_last x c : no10 (x ++ [c]) = true -> N.eqb c 10 = false.
+Proof.
+  unfold no10. rewrite forallb_app. intros H. apply andb_true_iff in H as [_ H].
+  cbn [forallb] in H. apply andb_true_iff in H as [H _]. apply negb_true_iff. exact H.
+Qed.
+
+Lemma last_in (ls : list str) : ls <> [] -> In (last ls []) ls.
+Proof.
+  induction ls as [|l ls IH]; intros H; [contradiction|].
+  destruct ls as [|l2 ls]; [left; reflexivity|].
+  right. apply IH. discriminate.
+Qed.
+
+Lemma strip_lines ls :
+  ls <> [] -> forallb no10 ls = true -> Forall (fun l => l <> []) ls ->
+  strip (joinl ls ++ [10]) [10] = joinl ls.
+Proof.
+  intros Hne H10 Hnn.
+  (* the text starts with a character of the first line *)
+  assert (Hhead : exists c r, joinl ls = c :: r /\ N.eqb c 10 = false).
+  { destruct ls as [|l ls]; [contradiction|].
+    inversion Hnn as [|? ? Hl _]; subst. cbn [forallb] in H10. apply andb_true_iff in H10 as [Hl10 _].
+    destruct l as [|c l]; [contradiction|].
+    unfold no10 in Hl10. cbn [forallb] in Hl10. apply andb_true_iff in Hl10 as [Hc _].
+    apply negb_true_iff in Hc.
+    destruct ls as [|l2 ls].
+    - exists c, l. split; [reflexivity|exact Hc].
+    - exists c, (l ++ 10 :: joinl (l2 :: ls)). split; [reflexivity|exact Hc]. }
+  (* and ends with a character of the last line *)
+  assert (Htail : exists x c, joinl ls = x ++ [c] /\ N.eqb c 10 = false).
+  { destruct (joinl_last ls Hne) as [pre E].
+    pose proof (last_in ls Hne) as Hin.
+    assert (Hl : last ls [] <> []) by (eapply Forall_forall in Hnn; eauto).
+    assert (Hl10 : no10 (last ls []) = true) by (eapply forallb_forall in H10; eauto).
+    destruct (last_char _ Hl) as (x & c & Ex). rewrite Ex in Hl10, E.
+    exists (pre ++ x), c. split; [rewrite E, app_assoc; reflexivity|].
+    apply (no10_app_last x c Hl10). }
+  destruct Hhead as (c & r & Ec & Hc). destruct Htail as (x & c' & Ex & Hc').
+  unfold strip. rewrite Ec. cbn [app]. rewrite lstrip_head by (unfold memN; cbn [existsb]; rewrite Hc; reflexivity).
+  change (c :: r ++ [10]) with ((c :: r) ++ [10]). rewrite <- Ec.
+  rewrite rstrip_drop by reflexivity. rewrite Ex.
+  apply rstrip_keep. unfold memN. cbn [existsb]. rewrite Hc'. reflexivity.
+Qed.
+
+Lemma line_ok_no10 L dn line : line_ok L dn line -> no10 line = true /\ line <> [].
+Proof.
+  intros [[Hpr (c & r & En & _)] (P & -> & _ & HgP)]. split.
+  - unfold no10. rewrite forallb_app. apply andb_true_iff. split.
+    + apply forallb_forall. intros g Hg. eapply forallb_forall in HgP; eauto.
+      rewrite (glyph_not_10 g HgP). reflexivity.
+    + apply forallb_forall. intros g Hg. eapply forallb_forall in Hpr; eauto.
+      rewrite (printable_not_10 g Hpr). reflexivity.
+  - rewrite En. destruct P; discriminate.
+Qed.
+
+Lemma sib_dups_erase t : sib_distinct t = true -> sib_dups (erase t) = false.
+Proof.
+  induction t as [g n a ks IH] using tree_ind'. intros H.
+  apply sib_distinct_inv in H as [Hd Hk].
+  cbn [erase sib_dups]. rewrite (dup_erase ks Hd). cbn [orb].
+  induction IH as [|k ks Hk1 Hks IHk]; [reflexivity|].
+  inversion Hk as [|? ? Hk2 Hk3]; subst.
+  cbn [map existsb]. rewrite (Hk1 Hk2). cbn [orb]. apply IHk.
+  - cbn [map names_nodup] in Hd. apply andb_true_iff in Hd as [_ Hd]. exact Hd.
+  - exact Hk3.
+Qed.
+
+Lemma pre_info_names p t : forall d hr,
+  all_nodes (fun x => p (tname x)) t = true ->
+  Forall (fun x : nat * bool * str => p (snd x) = true) (pre_info d hr t).
+Proof.
+  induction t as [g n a ks IH] using tree_ind'. intros d hr H.
+  apply all_nodes_inv in H as [H1 H2]. cbn [tname] in H1.
+  cbn [pre_info]. constructor; [exact H1|].
+  induction IH as [|k ks Hk Hks IHk]; [constructor|].
+  inversion H2 as [|? ? Hk2 Hk3]; subst.
+  apply Forall_app. split; [apply Hk; exact Hk2|apply IHk; exact Hk3].
+Qed.
+
+Theorem print_roundtrip stem branch final t :
+  print_alphabet (stem, branch, final) t = true ->
+  exists s, print_str (stem, branch, final) t = Ret s /\ str_to_tree_m s = Ret (erase t).
+Proof.
+  unfold print_alphabet, style_inferable. intros H.
+  repeat (apply andb_true_iff in H as [H ?]).
+  rename H0 into Hsd, H1 into Hnames, H2 into Gf, H3 into Gb, H4 into Gs, H5 into Hne, H6 into Hbf.
+  apply Nat.eqb_eq in H. apply Nat.eqb_eq in Hbf.
+  set (L := length stem).
+  assert (HLpos : (0 < L)%nat) by (unfold L; destruct stem; [discriminate|cbn; lia]).
+  unfold print_str, yield_tree.
+  replace (Nat.eqb (length stem) (length branch)) with true by (symmetry; apply Nat.eqb_eq; exact H).
+  replace (Nat.eqb (length branch) (length final)) with true by (symmetry; apply Nat.eqb_eq; exact Hbf).
+  cbn [andb].
+  eexists. split; [reflexivity|].
+  (* the lines *)
+  set (ys := yield_go (stem, branch, final) (repeat 32 (length stem)) [] (pre_info 0 false t)).
+  assert (Hmap : concat (map (fun x : str * str * str => let '(p, f, n) := x in p ++ f ++ n ++ [10]) ys)
+                 = concat (map (fun l => l ++ [10]) (map line_of ys))).
+  { rewrite map_map. f_equal. apply map_ext. intros [[p f] n]. cbn [line_of].
+    rewrite <- !app_assoc. reflexivity. }
+  rewrite Hmap. clear Hmap.
+  assert (Hpn : Forall (fun x : nat * bool * str => pname (snd x)) (pre_info 0 false t)).
+  { pose proof (pre_info_names print_name_ok t 0%nat false Hnames) as Hp.
+    eapply Forall_impl; [|exact Hp]. intros x Hx. apply print_name_ok_pname. exact Hx. }
+  pose proof (yield_lines stem branch final L eq_refl (eq_sym H) (eq_sym (eq_trans H Hbf)) Gs Gb Gf
+                          (pre_info 0 false t) [] Hpn) as Hl.
+  fold ys in Hl. rewrite pre_info_pn in Hl.
+  destruct t as [g n a ks]. cbn [pn] in Hl. fold (pnf 1 ks) in Hl.
+  destruct (map line_of ys) as [|rootline lines] eqn:E2; [inversion Hl|]. Show.
+  assert (Hroot : line_ok L (0%nat, n) rootline) by (inversion Hl; assumption).
+  assert (Hrest : Forall2 (line_ok L) (pnf 1 ks) lines) by (inversion Hl; assumption).
+  assert (Hrl : rootline = n).
+  { destruct Hroot as [_ (P & -> & HP & _)]. cbn [fst snd] in HP. rewrite Nat.mul_0_r in HP.
+    destruct P; [reflexivity|discriminate]. }
+  subst rootline.
+  assert (H10 : forallb no10 (n :: lines) = true /\ Forall (fun l => l <> []) (n :: lines)).
+  { clear - Hl. induction Hl as [|dn line dns ls Hx Hxs IH]; [split; [reflexivity|constructor]|].
+    destruct IH as [I1 I2]. destruct (line_ok_no10 L dn line Hx) as [A B].
+    split; [cbn [forallb]; rewrite A, I1; reflexivity|constructor; assumption]. }
+  destruct H10 as [H10 Hnn].
+  rewrite (concat_lines (n :: lines) ltac:(discriminate)).
+  unfold str_to_tree_m. rewrite (strip_lines (n :: lines) ltac:(discriminate) H10 Hnn).
+  assert (Hjn : joinl (n :: lines) <> []).
+  { inversion Hnn as [|? ? Hn0 _]; subst. destruct n as [|c r]; [contradiction|].
+    destruct lines; discriminate. }
+  destruct (joinl (n :: lines)) as [|c0 r0] eqn:Ej; [contradiction|]. rewrite <- Ej. clear Ej Hjn c0 r0.
+  rewrite (split_joinl (n :: lines) ltac:(discriminate) H10).
+  rewrite (st_lines_none L HLpos (pnf 1 ks) lines (chain_pnf ks) Hrest).
+  change ((0%nat, n) :: pnf 1 ks) with (pn 0 (T g n a ks)).
+  rewrite (forest_of_pre_pn (T g n a ks) (S (length (pnf 1 ks)))) by (cbn [pn length]; unfold pnf; lia).
+  rewrite (sib_dups_erase (T g n a ks) Hsd). reflexivity.
 Qed.
